@@ -9,7 +9,7 @@ from typing import Any
 
 from harness import c02_util as U
 from harness.common import VERIF, Ck, coq_list, coq_str
-from translate import c02_tables, c03_kvparse
+from translate import c02_tables, c03_basetok, c03_kvparse
 
 MANIFEST = dict(
     technique='Rocq proof (generic chunked-reader = flat-reader simulation for every reader program; totality, progress, '
@@ -614,6 +614,203 @@ def corr_kvparse(ck: Ck, escalate: bool) -> None:
     ck.sample({'kvparse_case': {'tokens': [KV_TOK_NAMES[i] for i in rt[0][2]], 'bits': rt[0][0], 'outcome': kv_name(rt[0][3])}})
 
 
+
+# ------------------------------------------------------------------------------------------------ BaseTokenizer layer
+BT_IMPORTS = U.IMPORTS + ['SV.Text.BaseTok', 'SV.Text.BaseTokEnum']
+# public operations: (name, Coq constructor)
+BT_OPS = [('call', 'XCall'), ('peek', 'XPeek'), ('next', 'XNext'), ('push(STRING,"p")', 'XPush 1 (Some [112])'),
+          ('push(NEWLINE)', 'XPush 2 None'), ('push(BRACE_OPEN,"zz")', 'XPush 6 (Some [122;122])'), ('push(STRING)', 'XPush 1 None'),
+          ('expect(STRING)', 'XExpect 1 true'), ('expect(NEWLINE)', 'XExpect 2 true'), ('expect(BRACE_OPEN,skip_newline=False)', 'XExpect 6 false'),
+          ('next(skipping_newlines())', 'XSkipNl'), ('next(block(consume_brace=False))', 'XBlock')]
+BT_ITER = [(1, 'a'), (2, '\n'), (2, '\n'), (6, '{'), (1, 'b'), (7, '}'), (11, 'f')]
+BT_TEXT = 'a\r\n\n{ "b\nc" } [f] ='
+BT_TEXT_ERR = 'a\n{ "b'
+BT_BITS = 7            # string_bracket + string_parens + allow_escapes
+BT_CHUNKS = ['a\r', '', '\n\n{ "b', '\nc" }', ' [', 'f] =']
+BT_SOURCES = ['iter', 'flat', 'chunked', 'flat_err', 'chars_err']
+
+
+def bt_make(kind: str):
+    from srctools.tokenizer import IterTokenizer, Token, Tokenizer
+    if kind == 'iter':
+        return IterTokenizer([(Token(v), s) for v, s in BT_ITER])
+    if kind == 'flat':
+        return Tokenizer(BT_TEXT, None, **U.opts_of_bits(BT_BITS))
+    if kind == 'chunked':
+        return Tokenizer(iter(BT_CHUNKS), None, **U.opts_of_bits(BT_BITS))
+    if kind == 'flat_err':
+        return Tokenizer(BT_TEXT_ERR, None, **U.opts_of_bits(BT_BITS))
+    return Tokenizer(iter(list(BT_TEXT_ERR)), None, **U.opts_of_bits(BT_BITS))
+
+
+def bt_coq_run(kind: str) -> str:
+    if kind == 'iter':
+        return 'xrun_iter ' + coq_list(f'({v}, {coq_str(s)})' for v, s in BT_ITER)
+    if kind == 'flat':
+        return f'xrun_flat {BT_BITS} {coq_str(BT_TEXT)}'
+    if kind == 'chunked':
+        return f'xrun_chk {BT_BITS} {coq_list(coq_str(c) for c in BT_CHUNKS)}'
+    if kind == 'flat_err':
+        return f'xrun_flat {BT_BITS} {coq_str(BT_TEXT_ERR)}'
+    return f'xrun_chk {BT_BITS} {coq_list(coq_str(c) for c in BT_TEXT_ERR)}'
+
+
+_UNEXPECTED = {'Unexpected property flags': 11, 'Unexpected parentheses block': 3, 'Unexpected string': 1, 'Unexpected directive': 4,
+               'Unexpected comment': 5, 'File ended unexpectedly!': 0, 'Unexpected newline!': 2}
+
+
+def _got_token(mess: str) -> int:
+    """The token an error raised by a helper names."""
+    from srctools.tokenizer import _OPERATOR_VALS, Token
+    if mess.startswith('Expected '):
+        return Token[mess.rsplit('Token.', 1)[1].rstrip('!')].value
+    if mess.startswith('Unclosed '):
+        return 0
+    for pre, v in _UNEXPECTED.items():
+        if mess.startswith(pre):
+            return v
+    if mess.startswith('Unexpected "'):
+        ch = mess[len('Unexpected "'):].split('" character!')[0]
+        for t, s in _OPERATOR_VALS.items():
+            if s == ch:
+                return t.value
+    return 99
+
+
+def bt_run(kind: str, ops: tuple[int, ...]) -> list[int]:
+    """Run a sequence of public BaseTokenizer operations on the real class; encode as BaseTokEnum.xrun does."""
+    from srctools.tokenizer import Token, TokenSyntaxError
+    tk = bt_make(kind)
+    out: list[int] = []
+
+    def ptok(tv) -> list[int]:
+        return [tv[0].value, len(tv[1]), *map(ord, tv[1])]
+    for o in ops:
+        go = True
+        try:
+            if o == 0:
+                out += [1, *ptok(tk())]
+            elif o == 1:
+                out += [1, *ptok(tk.peek())]
+            elif o == 2:
+                try:
+                    out += [1, *ptok(next(tk))]
+                except StopIteration:
+                    out += [5]
+            elif o in (3, 4, 5, 6):
+                t, v = [(Token.STRING, 'p'), (Token.NEWLINE, None), (Token.BRACE_OPEN, 'zz'), (Token.STRING, None)][o - 3]
+                try:
+                    tk.push_back(t, v)
+                    out += [3]
+                except ValueError:
+                    out += [4]
+            elif o in (7, 8, 9):
+                t, skip = [(Token.STRING, True), (Token.NEWLINE, True), (Token.BRACE_OPEN, False)][o - 7]
+                v = tk.expect(t, skip)
+                out += [6, len(v), *map(ord, v)]
+            elif o == 10:
+                try:
+                    out += [1, *ptok(next(tk.skipping_newlines()))]
+                except StopIteration:
+                    out += [5]
+            else:
+                try:
+                    v = next(tk.block('x', consume_brace=False))
+                    out += [6, len(v), *map(ord, v)]
+                except StopIteration:
+                    out += [5]
+        except TokenSyntaxError as e:
+            i, args = U.err_code(e.mess)
+            ln = e.line_num if isinstance(e.line_num, int) else 0
+            if i != 99:                      # raised by the underlying tokenizer: the run ends
+                out += [2, 2, i, ln, len(args), *args]
+                go = False
+            else:                            # raised by the helper itself through self.error
+                out += [7, _got_token(e.mess), ln]
+            if type(e) is not TokenSyntaxError or ln != tk.line_num:
+                out += [8]
+        except BaseException as e:  # noqa: BLE001
+            out += [4, 0, *map(ord, type(e).__name__)]
+            go = False
+        out += [len(tk._pushback)]
+        for tv in tk._pushback:
+            out += ptok(tv)
+        out += [tk.line_num]
+        if not go:
+            break
+    return out
+
+
+def _bt_shard(job) -> tuple[int, int, dict]:
+    kind, first, n = job
+    tot = 0
+    cnt = 0
+    hist: dict[str, int] = {}
+    seqs = [()] if first is None else [(first,) + w for k in range(n) for w in itertools.product(range(len(BT_OPS)), repeat=k)]
+    for ops in seqs:
+        enc = bt_run(kind, ops)
+        tot = (tot + U.hash_list(enc)) & U.M63
+        cnt += 1
+        k = 'helper-error' if 7 in enc[:1] else 'ok'
+        hist[k] = hist.get(k, 0) + 1
+    return tot, cnt, hist
+
+
+def corr_basetok(ck: Ck, escalate: bool) -> None:
+    """BaseTokenizer model (Text/BaseTok.v, configured from the source) vs the real class: EVERY sequence of up to n public
+    operations on five sources; observables after every operation: result (token, value / error + token named + line),
+    the complete _pushback list in list order, line_num."""
+    side = ck.extra.get('translated', {}).get('BaseTokSites_gen', {})
+    changed = any(side.get('digests', {}).get(k) != v for k, v in c03_basetok.MODEL_DIGESTS.items())
+    n = 5 if (ck.thorough or escalate or changed) else 4
+    alpha = '[' + '; '.join(c for _, c in BT_OPS) + ']'
+    cjobs = [[f'xshard_hash ({bt_coq_run(kind)}) {alpha} {n}'] for kind in BT_SOURCES]
+    pjobs = [(kind, None, 0) for kind in BT_SOURCES] + [(kind, f, n) for kind in BT_SOURCES for f in range(len(BT_OPS))]
+    with ThreadPoolExecutor(1) as ex:
+        fut = ex.submit(U.coq_eval_many, ck, cjobs, 'c03bt', imports=BT_IMPORTS, timeout=600, workers=len(BT_SOURCES))
+        parts = U.pool_map(_bt_shard, pjobs, workers=14)
+        res = fut.result()
+    bad = []
+    total = 0
+    for kind, r in zip(BT_SOURCES, res):
+        tot = sum(t for (k2, _f, _n), (t, _c, _h) in zip(pjobs, parts) if k2 == kind) & U.M63
+        cnt = sum(c for (k2, _f, _n), (_t, c, _h) in zip(pjobs, parts) if k2 == kind)
+        total += cnt
+        ck.hist('basetok_sequences', kind, cnt)
+        if r is None or U.parse_int63(r[0]) != tot:
+            bad.append(kind)
+    ck.count('corr_basetok_sequences', total)
+    detail = ''
+    if bad:
+        detail = _bt_locate(ck, bad[0])
+        ck.tie_broken.append('correspondence BaseTokenizer vs Text/BaseTok.v')
+    ck.obligation('correspondence:basetokenizer_ops', not bad,
+                  f'real BaseTokenizer (IterTokenizer and Tokenizer, flat / chunked / ending in an error) vs model: every sequence of up to {n} of '
+                  f'{len(BT_OPS)} public operations (call, peek, next, 4 push_back forms, 3 expect forms, skipping_newlines and block steps) on '
+                  f'{len(BT_SOURCES)} sources ({total} sequences; result, _pushback list, line_num after every operation): '
+                  + ('agree' if not bad else f'{bad} disagree; {detail}'))
+    ck.sample({'basetok_case': {'source': 'flat', 'ops': ['peek', 'call', 'push(NEWLINE)', 'expect(STRING)'],
+                                'encoded': bt_run('flat', (1, 0, 4, 7))}})
+
+
+def _bt_locate(ck: Ck, kind: str) -> str:
+    from harness.common import parse_coq_N_list
+    for k in range(0, 4):
+        seqs = list(itertools.product(range(len(BT_OPS)), repeat=k))
+        exprs = [f'{bt_coq_run(kind)} [' + '; '.join(BT_OPS[o][1] for o in ops) + ']' for ops in seqs]
+        for lo in range(0, len(exprs), 400):
+            vals = ck.coq_eval(BT_IMPORTS, exprs[lo:lo + 400], name='btlocate', preamble=U.PRE)
+            if vals is None:
+                return 'could not evaluate the model literally'
+            for ops, v in zip(seqs[lo:lo + 400], vals):
+                m = parse_coq_N_list(v)
+                imp = bt_run(kind, ops)
+                if m != imp:
+                    d = {'source': kind, 'ops': [BT_OPS[o][0] for o in ops], 'impl': imp, 'model': m}
+                    ck.extra['basetok_disagreement'] = d
+                    return f'first: source={kind} ops={d["ops"]} impl={imp} model={m}'
+    return 'disagreement only at length >= 4'
+
 # ------------------------------------------------------------------------------------------------ oracle on the implementation
 def chunk_oracle(s: str, bits: int, cs: list[str]) -> str | None:
     """Chunked delivery must give the same trace as the single string; nothing but TokenSyntaxError may escape."""
@@ -877,7 +1074,8 @@ def run(ck: Ck) -> None:
     if escalate:
         ck.notes.append('hand-modelled tokenizer functions changed since the model was written: budgets escalated')
     ok_k = ck.translate('KvParseSites_gen', c03_kvparse.translate)
-    built = ok_t and ok_k and ck.build(['Props/C03.vo', 'Text/TokEnum.vo', 'Text/KvErrGen.vo'])
+    ok_b = ck.translate('BaseTokSites_gen', c03_basetok.translate)
+    built = ok_t and ok_k and ok_b and ck.build(['Props/C03.vo', 'Text/TokEnum.vo', 'Text/KvErrGen.vo', 'Text/BaseTokEnum.vo'])
     if built:
         ck.theorems('Props/C03.v')
         ck.instance_obligations(U.IMPORTS + ['SV.Text.TokenizerProofs'], {
@@ -896,6 +1094,12 @@ def run(ck: Ck) -> None:
             'parse_path_census_wellformed': 'kv_census_rows_wellformed',
             'error_messages_format_with_the_arguments_passed': 'error_formats_ok',
         }, name='kvinst')
+        ck.instance_obligations(BT_IMPORTS, {
+            'pushback_list_is_a_stack_LIFO': 'pushback_is_lifo',
+            'error_of_a_token_covers_every_member': 'error_covers_every_token',
+            'push_back_of_an_operator_redelivers_what_the_tokenizer_delivers': 'operator_vals_match_tokenizer',
+            'push_back_keeps_the_value_of_value_tokens': 'value_tokens_keep_their_value',
+        }, name='btinst')
         _stage(ck, 'translate+build+theorems+instances')
         corr_exhaustive(ck, escalate)
         _stage(ck, 'corr_exhaustive')
@@ -903,6 +1107,8 @@ def run(ck: Ck) -> None:
         _stage(ck, 'corr_random')
         corr_kvparse(ck, escalate)
         _stage(ck, 'corr_kvparse')
+        corr_basetok(ck, escalate)
+        _stage(ck, 'corr_basetok')
     search(ck, escalate)
     _stage(ck, 'search')
     ck.extra.pop('_t_last', None)
